@@ -32,7 +32,8 @@ class TickCap(KeyboardInterrupt):
 class RunnerProxy(object):
     """Stands in for tasker.runner; logs every send (who, control, status)."""
 
-    def __init__(self, tasker, log, state):
+    def __init__(self, tasker, log, state, house=None):
+        self.house = house
         self.tasker = tasker
         self.gen = tasker.runner
         self.log = log
@@ -43,7 +44,7 @@ class RunnerProxy(object):
         st["pos"] += 1
         ev = {"k": "send", "tick": st["tick"], "pos": st["pos"], "tasker": self.tasker.name,
               "control": CONTROL.get(control, control), "caller": "sweep" if st.get("sweep") else "run",
-              "stamp": self.tasker.store.stamp, "depth": st["depth"], "seq": len(recorder.TRACE)}
+              "stamp": self.tasker.store.stamp, "depth": st["depth"], "seq": len(recorder.TRACE), "house": self.house}
         self.log.append(ev)
         if st.get("presnap"):
             ev["pre"] = st["presnap"]()      # watched shares as they are when the control arrives
@@ -104,10 +105,12 @@ def all_framers(house):
 
 
 def run_text(text, period=0.125, maxticks=64, watch=(), boom=None, build_only=False,
-             real=False, tick_hook=None, proxies=True, keep=None, behaviors=None, post=False, stamp=0.0, rerun=False):
+             real=False, tick_hook=None, proxies=True, keep=None, behaviors=None, post=False, stamp=0.0, rerun=False, alias=None):
     """Build and run `text`.  Returns a Result with
        .built, .build_error, .trace (recorder events), .sends, .ticks (snapshots
-       at each changeStamp call), .exc (exception leaving run()), .capped, .skedder"""
+       at each changeStamp call), .exc (exception leaving run()), .capped, .skedder
+       alias: {clone framer name: original name} from gen.cloneify -- clones are reported under the name of the framer
+       they are a clone of and the moot originals themselves are left out of the snapshots"""
     res = Result()
     res.trace, res.sends, res.ticks = [], [], []
     res.exc = None
@@ -154,16 +157,22 @@ def run_text(text, period=0.125, maxticks=64, watch=(), boom=None, build_only=Fa
 
     state = {"tick": 0, "pos": 0, "depth": 0, "sweep": False}
     house0 = sk.houses[0]
+    alias = dict(alias or {})
+    res.alias = alias
+
+    def fmap(house):
+        return {alias.get(fr.name, fr.name): framer_snapshot(fr) for fr in house.framers
+                if not (alias and fr.schedule == MOOT)}
     recorder.reset(watch=watch, store=house0.store, boom=boom,
-                   framers=[f for f in house0.framers if f.schedule in (AUX, SLAVE)] if post else None)
+                   framers=[f for f in house0.framers if f.schedule in (AUX, SLAVE)] if post else None, alias=alias)
     res.trace = recorder.TRACE
 
-    state["post"] = (lambda: {fr.name: framer_snapshot(fr) for fr in house0.framers}) if post else None
+    state["post"] = (lambda: fmap(house0)) if post else None
     state["presnap"] = (lambda: recorder.snapshot(house0.store)) if (watch and post) else None
 
     def snap(house):
         return {"tick": state["tick"], "stamp": house.store.stamp, "seq": len(recorder.TRACE),
-                "framers": {fr.name: framer_snapshot(fr) for fr in house.framers},
+                "framers": fmap(house),
                 "shares": recorder.snapshot(house.store) if watch else None}
 
     for house in sk.houses:
@@ -194,7 +203,7 @@ def run_text(text, period=0.125, maxticks=64, watch=(), boom=None, build_only=Fa
         for house in sk.houses:
             for t in house.taskers:
                 if t.runner is not None and not isinstance(t.runner, RunnerProxy):
-                    t.runner = RunnerProxy(t, res.sends, state)
+                    t.runner = RunnerProxy(t, res.sends, state, house=house.name)
 
     # mark the final abort sweep: Skedder.run's finally announces it on the console
     # before it sends ABORT to what is left in ready; the exit reason is announced too.
@@ -235,14 +244,14 @@ def run_text(text, period=0.125, maxticks=64, watch=(), boom=None, build_only=Fa
                 del res.sends[:]
                 del res.ticks[:]
                 recorder.reset(watch=watch, store=house0.store, boom=None,
-                               framers=[f for f in house0.framers if f.schedule in (AUX, SLAVE)] if post else None)
+                               framers=[f for f in house0.framers if f.schedule in (AUX, SLAVE)] if post else None, alias=alias)
                 state.update(tick=0, pos=0, depth=0, sweep=False)
                 res.presweep, res.exit_reason = None, None
                 for house in sk.houses:
                     for t in house.taskers:
                         t.remake()
                         if proxies:
-                            t.runner = RunnerProxy(t, res.sends, state)
+                            t.runner = RunnerProxy(t, res.sends, state, house=house.name)
                 res.reran = True
                 sk.run()
     except BaseException as e:
